@@ -112,6 +112,7 @@ type c23Env struct {
 	mem              *c23LogFS
 	rw               []c23Rewriter
 	h                [4][]RequestHandler // [os | memfs SkipCache (used without Accept-Encoding) | memfs cached (used with gzip) | memfs Root="a"][rewriter]
+	walkAlways       bool                // replay of a shard-level finding: walk the tree after every OS request
 	walked           map[string]bool     // (rewriter, file-selecting path, encoding) already followed by a tree walk
 	ctx, ctx2        RequestCtx
 	stop             chan struct{}
@@ -402,7 +403,7 @@ func (e *c23Env) run(r *vrt.R, rwIdx, fsKind int, target, host, ae string, cnt *
 				r.Violation("os-outside-content-served:"+rw.Kind+sfx,
 					fmt.Sprintf("%s: status %d, response carries the marker of a file outside Root (file-selecting path %q)", desc(), status, sel), art())
 			}
-			if wk := rw.Name + "\x00" + sel + "\x00" + ce; ce != "" && !e.walked[wk] {
+			if wk := rw.Name + "\x00" + sel + "\x00" + ce; !e.walkAlways && ce != "" && !e.walked[wk] {
 				// the handler caches open files per path: a compressed copy is created at most on the first such request
 				e.walked[wk] = true
 				cnt.walks++
@@ -411,6 +412,13 @@ func (e *c23Env) run(r *vrt.R, rwIdx, fsKind int, target, host, ae string, cnt *
 						fmt.Sprintf("%s: new files outside root/ and croot/: %q", desc(), outside), art())
 				}
 			}
+		}
+	}
+	if fsKind == 0 && e.walkAlways {
+		cnt.walks++
+		if outside, _ := e.walk(); len(outside) > 0 {
+			r.Violation("os-file-created-outside-roots:"+rw.Kind+sfx,
+				fmt.Sprintf("%s: new files outside root/ and croot/: %q", desc(), outside), art())
 		}
 	}
 	c.Response.Reset()
@@ -546,21 +554,56 @@ func c23Templates(thorough bool) []string {
 	return out
 }
 
+const c23Chunk = 8 // templates per shard
+
+func c23Alphabet() [][]byte {
+	return seqx.Sym("/", ".", "%2e", "%2f", "%5c", "\\", "a", "%00", ":", "..")
+}
+
 func c23Replay(t *testing.T, r *vrt.R, rp json.RawMessage) {
 	var a c23Case
+	var g struct {
+		Shard         *string `json:"shard"`
+		TemplatesFrom *int    `json:"templates_from"`
+	}
 	if err := json.Unmarshal(rp, &a); err != nil {
 		r.ToolError("bad replay artefact: %v", err)
 	}
-	target, err := strconv.Unquote(a.Target)
-	if err != nil {
-		r.ToolError("bad target in artefact: %v", err)
-	}
+	_ = json.Unmarshal(rp, &g)
 	e, err := c23NewEnv(t.TempDir(), 0)
 	if err != nil {
 		r.ToolError("env: %v", err)
 	}
 	defer e.close()
 	var cnt c23Counts
+	if g.Shard != nil || g.TemplatesFrom != nil {
+		// shard-level finding (a file appeared outside the roots): re-run the shard, walking the tree after every OS request
+		e.walkAlways = true
+		n := 0
+		if g.TemplatesFrom != nil {
+			tmpl := c23Templates(r.Thorough())
+			for _, tg := range tmpl[*g.TemplatesFrom:min(*g.TemplatesFrom+c23Chunk, len(tmpl))] {
+				n += e.target(r, tg, true, &cnt)
+			}
+		} else {
+			pre, _ := strconv.Unquote(*g.Shard)
+			alpha, maxLen := c23Alphabet(), vrt.Pick(r, 5, 6)
+			seqx.Sequences(len(alpha), maxLen-2, func(seq []int) bool {
+				b := []byte(pre)
+				for _, x := range seq {
+					b = append(b, alpha[x]...)
+				}
+				n += e.target(r, "/"+string(b), 2+len(seq) <= maxLen-1, &cnt)
+				return true
+			})
+		}
+		r.Eval(n)
+		return
+	}
+	target, err := strconv.Unquote(a.Target)
+	if err != nil {
+		r.ToolError("bad target in artefact: %v", err)
+	}
 	for i, rw := range e.rw {
 		for k, fk := range c23FSKinds {
 			if rw.Name == a.Rewriter && fk == a.FS {
@@ -581,7 +624,7 @@ func TestVerif_C23(t *testing.T) {
 		c23Replay(t, r, rp)
 		return
 	}
-	alpha := seqx.Sym("/", ".", "%2e", "%2f", "%5c", "\\", "a", "%00", ":", "..")
+	alpha := c23Alphabet()
 	maxLen := vrt.Pick(r, 5, 6)
 	rawLen := maxLen - 2 // raw (no leading slash added) targets up to this many symbols
 	tmpl := c23Templates(r.Thorough())
@@ -621,7 +664,7 @@ func TestVerif_C23(t *testing.T) {
 	putEnv := func(e *c23Env) { envMu.Lock(); free = append(free, e); envMu.Unlock() }
 
 	k := len(alpha)
-	const chunk = 8
+	const chunk = c23Chunk
 	nTmplShards := (len(tmpl) + chunk - 1) / chunk
 	nStr := k*k + k + 1
 	r.Par(nStr+nTmplShards, func(i0 int) {
@@ -653,6 +696,10 @@ func TestVerif_C23(t *testing.T) {
 				}
 			}
 			r.Eval(n)
+			if outside, _ := e.walk(); len(outside) > 0 {
+				r.Violation("os-file-created-outside-roots:found-at-shard-end", fmt.Sprintf("template shard %d..%d: new files outside root/ and croot/: %q", lo, hi, outside),
+					map[string]int{"templates_from": lo})
+			}
 			return
 		}
 		var pre []byte
